@@ -61,7 +61,17 @@ def check_group_trace(rule, idx, f: FunctionInfo, allow_sea: bool = True, min_si
         st = enclosing(S.pm, c, ast.stmt)
         ok = False
         if info["kind"] == "group":
-            ok = same_group(str(info["P"]), str(info["Q"])) is not None and str(info["NB"]).endswith(".num_wann")
+            sg = same_group(str(info["P"]), str(info["Q"])) is not None
+            if not sg:
+                # P, Q are the two elements of one tuple target `for P, Q in groups` (loop or comprehension generator)
+                x = c
+                while x in S.pm and not sg:
+                    x = S.pm[x]
+                    tgts = [x.target] if isinstance(x, ast.For) else [g_.target for g_ in x.generators] if isinstance(x, (ast.ListComp, ast.GeneratorExp, ast.DictComp, ast.SetComp)) else []
+                    sg = any(isinstance(t_, ast.Tuple) and [norm(e_) for e_ in t_.elts] == [str(info["P"]), str(info["Q"])] for t_ in tgts)
+                if not sg:
+                    raw = [norm(a_) for a_ in c.args[1:]]
+            ok = sg and str(info["NB"]).endswith(".num_wann")
         elif info["kind"] == "sea":
             ok = allow_sea and str(info["NB"]).endswith(".num_wann")
         rule.check(ok, f"{g.qualname}: trace over inn = one whole group [n0, n1) (or the occupied manifold [0, n)), out = its complement up to num_wann", g, st,
